@@ -6,6 +6,8 @@ import (
 	"crypto/hmac"
 	"crypto/md5"
 	"crypto/sha1"
+	"crypto/sha256"
+	"crypto/sha512"
 	"encoding/hex"
 	"fmt"
 	"go/types"
@@ -26,11 +28,12 @@ type sealRec struct {
 }
 
 type aeadState struct {
-	inst  map[*Cell]*aeadInst
-	recs  []*sealRec
-	hkdf  map[*Cell]*hkdfInst
-	hmacs map[*Cell]*hmacInst
-	havoc bool // Open succeeds nondeterministically with arbitrary plaintext (over-approximation)
+	inst    map[*Cell]*aeadInst
+	recs    []*sealRec
+	hkdf    map[*Cell]*hkdfInst
+	hmacs   map[*Cell]*hmacInst
+	digests map[string][]*Term
+	havoc   bool // Open succeeds nondeterministically with arbitrary plaintext (over-approximation)
 }
 
 type hkdfInst struct {
@@ -309,6 +312,43 @@ func registerCrypto(p *Program) {
 		}
 		panic(unsupported{"crypto.Hash.Size of unknown hash"})
 	})
+	// one-shot digests (sha256.Sum256, sha1.Sum, md5.Sum, sha512.Sum512): computed on concrete
+	// data; on symbolic data an arbitrary but deterministic digest (same terms, same digest)
+	sumFn := func(name string, size int, native func([]byte) []byte) {
+		p.reg(name, func(e *Exec, g *G, a []Value) Value {
+			in := e.sliceTerms(a[0].(SliceV))
+			arr := e.newArr(8, size)
+			if b, ok := concBytes(in); ok {
+				for i, x := range native(b) {
+					e.arrWrite(arr, e.tc.Const(64, uint64(i)), e.tc.Const(8, uint64(x)))
+				}
+				return &ArrayV{SA: arr}
+			}
+			key := name
+			for _, t := range in {
+				key += fmt.Sprintf("|%p", t)
+			}
+			st := e.aeadSt()
+			if st.digests == nil {
+				st.digests = map[string][]*Term{}
+			}
+			d, ok := st.digests[key]
+			if !ok {
+				for i := 0; i < size; i++ {
+					d = append(d, e.fresh("digest", BV(8)))
+				}
+				st.digests[key] = d
+			}
+			for i, t := range d {
+				e.arrWrite(arr, e.tc.Const(64, uint64(i)), t)
+			}
+			return &ArrayV{SA: arr}
+		})
+	}
+	sumFn("crypto/sha256.Sum256", 32, func(b []byte) []byte { x := sha256.Sum256(b); return x[:] })
+	sumFn("crypto/sha1.Sum", 20, func(b []byte) []byte { x := sha1.Sum(b); return x[:] })
+	sumFn("crypto/md5.Sum", 16, func(b []byte) []byte { x := md5.Sum(b); return x[:] })
+	sumFn("crypto/sha512.Sum512", 64, func(b []byte) []byte { x := sha512.Sum512(b); return x[:] })
 	// HMAC-SHA1 as an uninterpreted function of (key, message)
 	p.reg("crypto/hmac.New", func(e *Exec, g *G, a []Value) Value {
 		st := e.aeadSt()
